@@ -98,3 +98,11 @@ META["C19"] = dict(
          "That the model's bytes are the templates' bytes (both colour modes), and that rendering never panics (zero iterations, zero and negative durations, odd error texts), is established by exact comparison on generated data. The percentage's closeness to the exact share is a binary64 rounding fact and is not proved.",
     note="Trusted: Coq kernel (+ Flocq-carried axioms where rate/percent floats appear); text/template + fmt behaviour re-implemented and compared; extraction + driver; harness. The result-summary counterpart of the round-trip is checked by comparison, not proved.",
 )
+
+META["C11"] = dict(
+    design_ref="DESIGN.md section 5, C11",
+    technique="Coq proofs on the exact layer (remainder carry over rational rates: telescoping, per-tick floor/floor+1, peak bound; weight index = window number mod len proved against the code's loop), real-analysis proof that the density is unimodal; bit-exact differential of NewCalculator.For / CalculateGaussianRate.Rate against the extracted binary64 model with exp/erfc values as oracles; per-window property predicate on the implementation's outputs",
+    text="Theorems C11_carry, C11_step, C11_peak, C11_unimodal, C11_weight_index: for any non-negative exact rates the carried remainder makes D*sum(out) + rem_n = sum(rates) + rem_0 with 0 <= rem < D (nothing lost, never negative), each tick emits floor or floor+1 of its rate, no tick exceeds the largest-rate tick by more than one, the real density is largest nearest its mean, and the weight used is that of (window number) mod (number of weights). "
+         "Partial: the binary64 carry's distance from the exact layer and the Riemann-sum-vs-probability-mass discretisation error depend on Go's exp/erfc and float rounding; they are measured per generated parameter set by gauss_ok, not proved.",
+    note="Trusted: Coq kernel + standard real-number axioms (C11_unimodal, Flocq definitions); math.Exp/math.Erfc as oracles; extraction + driver; harness.",
+)
